@@ -82,7 +82,8 @@ def run_tracer(work, jobs, tag="t", nworkers=None, timeout=1800):
             for j in sh:
                 f.write(json.dumps(j) + "\n")
         wd = os.path.join(work.shm, "%s%d" % (tag, w))
-        p = subprocess.Popen([TRACER, jf, of, "--work", wd], stdout=subprocess.PIPE, stderr=subprocess.PIPE, text=True)
+        xd = work.path("xdev-%s%d" % (tag, w))      # on the filesystem of /verif, not on the worlds' tmpfs
+        p = subprocess.Popen([TRACER, jf, of, "--work", wd, "--xdev", xd], stdout=subprocess.PIPE, stderr=subprocess.PIPE, text=True)
         procs.append((p, of))
     deadline = time.time() + timeout
     for p, of in procs:
